@@ -5,6 +5,8 @@ package main
 // construction.
 
 import (
+	"os"
+	"path/filepath"
 	"crypto"
 	"crypto/ecdsa"
 	"crypto/elliptic"
@@ -138,8 +140,28 @@ func mintLeaf(spec LeafSpec, pub crypto.PublicKey, issuer *CA) (*x509.Certificat
 
 // ChainKind describes how the leaf is connected to the layout's root "rootA".
 // ground truth: does the leaf chain to a layout root through available intermediates, now?
-var chainKinds = []string{"direct", "inter-layout", "inter-caller", "inter2-mixed", "missing-inter", "expired-leaf", "notyet-leaf", "foreign-inter-caller", "foreign-root-caller", "expired-inter-old-leaf", "expired-inter-caller-old-leaf",
+var chainKinds = []string{"system-trusted-no-roots", "direct", "inter-layout", "inter-caller", "inter2-mixed", "missing-inter", "expired-leaf", "notyet-leaf", "foreign-inter-caller", "foreign-root-caller", "expired-inter-old-leaf", "expired-inter-caller-old-leaf",
 	"foreign-root", "expired-inter", "nonca-issuer", "second-root"}
+
+var trustOnce sync.Once
+
+// prepareTrust makes ONE certificate authority the machine's trust store for this process
+// (SSL_CERT_FILE, empty SSL_CERT_DIR; crypto/x509 reads them when system roots are first needed —
+// which the unchanged library never does). Replays carry the authority in "system_trust".
+func prepareTrust(a map[string]any) {
+	trustOnce.Do(func() {
+		pemS := str(a["system_trust"])
+		if pemS == "" {
+			pemS = getCA("sysroot", nil, "ok").PEM
+		}
+		dir := filepath.Join(scratch(), "trust")
+		os.MkdirAll(filepath.Join(dir, "empty"), 0o755)
+		f := filepath.Join(dir, "machine-ca.pem")
+		os.WriteFile(f, []byte(pemS), 0o644)
+		os.Setenv("SSL_CERT_FILE", f)
+		os.Setenv("SSL_CERT_DIR", filepath.Join(dir, "empty"))
+	})
+}
 
 type ChainSetup struct {
 	Issuer        *CA
@@ -223,6 +245,13 @@ func setupChain(kind string) ChainSetup {
 		// … not even when the caller passes the foreign ROOT itself as an "intermediate"
 		s.Issuer = foreign
 		s.CallerInters = []*CA{foreign}
+		s.GroundTruthOK = false
+	case "system-trusted-no-roots":
+		// the layout lists NO root CA; the leaf chains to a CA that only the MACHINE trusts (the
+		// process's system trust store, see prepareTrust): nothing chains to "one of the layout's
+		// roots" when there is none (seeded change c07-no-roots-nil-pool-system-trust)
+		s.Issuer = getCA("sysroot", nil, "ok")
+		s.LayoutRoots = nil
 		s.GroundTruthOK = false
 	case "second-root":
 		s.Issuer = interB
